@@ -1,7 +1,8 @@
 (* HeaderProofs.v -- section-by-section and whole-header round trips of the header
    writer/parser pair of Header.v (properties C17 last sentence, C07, C08):
    whatever the writer emits for a well-formed header graph h, the parser reads back as
-   norm h.  Every clause of `norm` is something py7zr does NOT preserve; every clause of
+   norm h.  Every clause of `norm` is something py7zr does NOT preserve (creation and access times
+   ARE preserved since the repair of FilesInfo.write: theorem norm_files_times); every clause of
    `wf_header` is a condition without which the pair does not round-trip. *)
 From P7 Require Import Prelude PyPrims Number Header HeaderPrims.
 From Coq Require Import ZifyBool ZifyNat.
@@ -149,12 +150,22 @@ Definition norm_streams (en : bool) (s : streamsinfo) : streamsinfo :=
 Definition flat_opt (o : option (option Z)) : option Z :=
   match o with Some (Some v) => Some v | _ => None end.
 
-Definition norm_file (e : fileent) : fileent :=
+(* a time vector that is written only when some entry has a defined value (b): when written, an absent
+   key comes back as present-but-None; when not written, a present-but-None key comes back absent.
+   Defined values are always kept. *)
+Definition tnorm (b : bool) (o : option (option Z)) : option (option Z) :=
+  if b then Some (flat_opt o) else None.
+
+(* cd / ad: "the CREATION_TIME / LAST_ACCESS_TIME record is written" = some entry of the list has a
+   defined creation / access time (Header.has_time) *)
+Definition norm_file (cd ad : bool) (e : fileent) : fileent :=
   mkFile (e_emptystream e) (e_name e)
-         None                          (* N-FILE-CTIME: creationtime is never written *)
-         None                          (* N-FILE-ATIME: lastaccesstime is never written *)
+         (tnorm cd (e_ctime e))        (* N-FILE-CTIME-KEY: defined values kept; only the key/None distinction moves *)
+         (tnorm ad (e_atime e))        (* N-FILE-ATIME-KEY: likewise *)
          (Some (flat_opt (e_mtime e))) (* N-FILE-MTIME-KEY: absent key comes back as present-but-None *)
          (Some (flat_opt (e_attr e))). (* N-FILE-ATTR-KEY: likewise *)
+Definition norm_files (files : list fileent) : list fileent :=
+  map (norm_file (has_time e_ctime files) (has_time e_atime files)) files.
 
 Definition all_named (files : list fileent) : bool :=
   forallb (fun f => match e_name f with Some n => wf_name n | None => false end) files.
@@ -182,7 +193,7 @@ Definition wf_header (lim : Z) (en : bool) (h : header) : bool :=
 
 Definition norm (en : bool) (h : header) : header :=
   mkHeader (option_map (norm_streams en) (h_streams h))
-           (option_map (map norm_file) (h_files h))
+           (option_map norm_files (h_files h))
            (match h_files h with
             | Some f => norm_emptyfiles f (h_emptyfiles h)
             | None => []    (* N-EMPTYFILES-NOFILES: no FilesInfo, no EmptyFile vector *)
@@ -753,6 +764,10 @@ Proof. intros fuel Hf. destruct fuel; [lia|]. reflexivity. Qed.
 Lemma PF_weaken lim k files ef ne bs res : PF lim k files ef ne bs res -> PF lim (S k) files ef ne bs res.
 Proof. intros H fuel Hf. apply H. lia. Qed.
 
+Lemma PF_weaken_le lim k k' files ef ne bs res : (k <= k')%nat ->
+  PF lim k files ef ne bs res -> PF lim k' files ef ne bs res.
+Proof. intros Hk H fuel Hf. apply H. lia. Qed.
+
 Lemma PF_record lim k p sz body rest files ef ne fs' ef' ne' res :
   p <> 0 -> p <> 25 -> wr_number (zlen body) = Ok sz ->
   parse_file_prop lim p body files ef ne = Ok (fs', ef', ne') ->
@@ -799,8 +814,13 @@ Qed.
 (* parser states after each record *)
 Definition st1 (e : fileent) : fileent := mkFile (e_emptystream e) None None None None None.
 Definition st2 (e : fileent) : fileent := mkFile (e_emptystream e) (e_name e) None None None None.
-Definition st3 (e : fileent) : fileent :=
-  mkFile (e_emptystream e) (e_name e) None None (Some (flat_opt (e_mtime e))) None.
+(* after the CREATION_TIME record (when cd), the LAST_ACCESS_TIME record (when ad), LAST_WRITE_TIME *)
+Definition st2c (cd : bool) (e : fileent) : fileent :=
+  mkFile (e_emptystream e) (e_name e) (tnorm cd (e_ctime e)) None None None.
+Definition st2a (cd ad : bool) (e : fileent) : fileent :=
+  mkFile (e_emptystream e) (e_name e) (tnorm cd (e_ctime e)) (tnorm ad (e_atime e)) None None.
+Definition st3 (cd ad : bool) (e : fileent) : fileent :=
+  mkFile (e_emptystream e) (e_name e) (tnorm cd (e_ctime e)) (tnorm ad (e_atime e)) (Some (flat_opt (e_mtime e))) None.
 
 Lemma zip_update_empty files :
   zip_update set_empty (repeat empty_file (length files)) (map e_emptystream files) = map st1 files.
@@ -842,9 +862,9 @@ Proof.
   rewrite <- (app_nil_r (wr_bits _)), rd_bits_wr_bits. reflexivity.
 Qed.
 
-Lemma norm_emptyfiles_idem files ef (ef0 : list bool) :
+Lemma norm_emptyfiles_idem cd ad files ef (ef0 : list bool) :
   (ef0 = norm_emptyfiles files ef \/ (ef0 = [] /\ any_true (norm_emptyfiles files ef) = false)) ->
-  let nes := Z.to_nat (count_true (map e_emptystream (map norm_file files))) in
+  let nes := Z.to_nat (count_true (map e_emptystream (map (norm_file cd ad) files))) in
   firstn nes (ef0 ++ repeat false nes) = norm_emptyfiles files ef.
 Proof.
   intros H. cbv zeta. rewrite map_map. cbn [norm_file e_emptystream].
@@ -910,27 +930,38 @@ Proof.
     + apply Ok_inj in Ha. subst a. cbn [app]. bstep IH1. split; [reflexivity|rewrite zlen_nil; lia].
 Qed.
 
-Lemma prop20 lim files vals ef ne :
+(* CREATION_TIME (18), LAST_ACCESS_TIME (19), LAST_WRITE_TIME (20): one reader, one writer *)
+Lemma prop_time lim p sel (g : fileent -> fileent) files vals ef ne :
+  p = 18 \/ p = 19 \/ p = 20 ->
   zlen files <= lim ->
-  wr_list (fun f => if opt_defined (e_mtime f) then wr_fixed 8 (opt_value (e_mtime f)) else Ok []) files = Ok vals ->
-  parse_file_prop lim 20 (wr_boolean (map (fun f => opt_defined (e_mtime f)) files) true ++ [0] ++ vals)
-                  (map st2 files) ef ne = Ok (map st3 files, ef, ne).
+  wr_list (fun f => if opt_defined (sel f) then wr_fixed 8 (opt_value (sel f)) else Ok []) files = Ok vals ->
+  parse_file_prop lim p (wr_boolean (map (fun f => opt_defined (sel f)) files) true ++ [0] ++ vals)
+                  (map g files) ef ne = Ok (map (fun e => set_time p (g e) (flat_opt (sel e))) files, ef, ne).
 Proof.
-  intros Hl Hw. unfold parse_file_prop. cbv zeta.
-  change (20 =? 14) with false. change (20 =? 15) with false. change (20 =? 17) with false.
-  change ((20 =? 18) || (20 =? 19) || (20 =? 20)) with true. cbv iota.
-  rewrite zlen_map, <- (zlen_map (fun f => opt_defined (e_mtime f)) files).
+  intros Hp Hl Hw. unfold parse_file_prop. cbv zeta.
+  assert (E14 : (p =? 14) = false) by lia. assert (E15 : (p =? 15) = false) by lia.
+  assert (E17 : (p =? 17) = false) by lia.
+  assert (Et : (p =? 18) || (p =? 19) || (p =? 20) = true) by lia.
+  rewrite E14, E15, E17, Et.
+  rewrite zlen_map, <- (zlen_map (fun f => opt_defined (sel f)) files).
   rewrite rd_boolean_wr_boolean by (intros _ _; rewrite zlen_map; lia). cbn [bind app rd_pid].
   rewrite <- (app_nil_r vals).
-  destruct (rd_per_file_wr 8 e_mtime (set_time 20) st2 files vals [] Hw) as [H1 _].
+  destruct (rd_per_file_wr 8 sel (set_time p) g files vals [] Hw) as [H1 _].
   rewrite H1. reflexivity.
 Qed.
 
-Lemma prop21 lim files vals ef ne :
+Lemma prop20 lim cd ad files vals ef ne :
+  zlen files <= lim ->
+  wr_list (fun f => if opt_defined (e_mtime f) then wr_fixed 8 (opt_value (e_mtime f)) else Ok []) files = Ok vals ->
+  parse_file_prop lim 20 (wr_boolean (map (fun f => opt_defined (e_mtime f)) files) true ++ [0] ++ vals)
+                  (map (st2a cd ad) files) ef ne = Ok (map (st3 cd ad) files, ef, ne).
+Proof. intros Hl Hw. rewrite (prop_time lim 20 e_mtime (st2a cd ad) files vals ef ne) by (auto || lia). reflexivity. Qed.
+
+Lemma prop21 lim cd ad files vals ef ne :
   zlen files <= lim ->
   wr_list (fun f => if opt_defined (e_attr f) then wr_fixed 4 (opt_value (e_attr f)) else Ok []) files = Ok vals ->
   parse_file_prop lim 21 (wr_boolean (map (fun f => opt_defined (e_attr f)) files) true ++ [0] ++ vals)
-                  (map st3 files) ef ne = Ok (map norm_file files, ef, ne).
+                  (map (st3 cd ad) files) ef ne = Ok (map (norm_file cd ad) files, ef, ne).
 Proof.
   intros Hl Hw. unfold parse_file_prop. cbv zeta.
   change (21 =? 14) with false. change (21 =? 15) with false. change (21 =? 17) with false.
@@ -938,7 +969,7 @@ Proof.
   rewrite zlen_map, <- (zlen_map (fun f => opt_defined (e_attr f)) files).
   rewrite rd_boolean_wr_boolean by (intros _ _; rewrite zlen_map; lia). cbn [bind app rd_pid].
   rewrite <- (app_nil_r vals).
-  destruct (rd_per_file_wr 4 e_attr set_attr st3 files vals [] Hw) as [H1 _].
+  destruct (rd_per_file_wr 4 e_attr set_attr (st3 cd ad) files vals [] Hw) as [H1 _].
   rewrite H1. reflexivity.
 Qed.
 
@@ -950,49 +981,97 @@ Proof.
   intros H1 H2. rewrite !zlen_app, wr_boolean_length, H2, H1. change (zlen [0]) with 1. destruct (all_true defined); lia.
 Qed.
 
+(* a time record as written by _write_times is read back by one more round of the property loop *)
+Lemma PF_time lim k p sel (g : fileent -> fileent) files rec rest ef ne res :
+  p = 18 \/ p = 19 \/ p = 20 -> zlen files <= lim ->
+  write_times p sel files = Ok rec ->
+  PF lim k (map (fun e => set_time p (g e) (flat_opt (sel e))) files) ef ne rest res ->
+  PF lim (S k) (map g files) ef ne (rec ++ rest) res /\ 3 <= zlen rec.
+Proof.
+  intros Hp Hl Hw Hrest. unfold write_times in Hw. cbv zeta in Hw.
+  bind_inv Hw sz Hsz. bind_inv Hw vals Hv. apply Ok_inj in Hw. subst rec.
+  set (defined := map (fun f => opt_defined (sel f)) files) in *.
+  split.
+  - replace (([p] ++ sz ++ wr_boolean defined true ++ [0] ++ vals) ++ rest)
+      with (p :: sz ++ (wr_boolean defined true ++ [0] ++ vals) ++ rest) by (norm_app; reflexivity).
+    destruct (rd_per_file_wr 8 sel (set_time p) g files vals [] Hv) as [_ Hlen]. fold defined in Hlen.
+    change (Z.of_nat 8) with 8 in Hlen.
+    eapply PF_record; [lia|lia| |apply prop_time; [exact Hp|lia|exact Hv]|exact Hrest].
+    rewrite (vector_record_size 8 defined vals (zlen files) (zlen_map _ _) Hlen).
+    exact Hsz.
+  - apply wr_number_length in Hsz. rewrite !zlen_app.
+    change (zlen [p]) with 1. change (zlen [0]) with 1.
+    pose proof (zlen_nonneg vals). pose proof (zlen_nonneg (wr_boolean defined true)). lia.
+Qed.
+
+(* CREATION_TIME / LAST_ACCESS_TIME: written exactly when some entry has a defined value *)
+Lemma PF_time_opt lim k p sel (g g' : fileent -> fileent) files rec rest ef ne res :
+  p = 18 \/ p = 19 -> zlen files <= lim ->
+  write_times_opt p sel files = Ok rec ->
+  (forall e, g' e = if has_time sel files then set_time p (g e) (flat_opt (sel e)) else g e) ->
+  PF lim k (map g' files) ef ne rest res ->
+  PF lim (k + length rec) (map g files) ef ne (rec ++ rest) res.
+Proof.
+  intros Hp Hl Hw Hg Hrest. unfold write_times_opt in Hw.
+  destruct (has_time sel files) eqn:E.
+  - rewrite (map_ext _ _ Hg) in Hrest.
+    destruct (PF_time lim k p sel g files rec rest ef ne res ltac:(lia) Hl Hw Hrest) as [H1 H2].
+    eapply PF_weaken_le; [|exact H1]. unfold zlen in H2. lia.
+  - apply Ok_inj in Hw. subst rec. cbn [app length]. rewrite Nat.add_0_r.
+    rewrite (map_ext _ _ Hg) in Hrest. exact Hrest.
+Qed.
+
 Theorem files_roundtrip lim pos files ef bs :
   wf_files lim files = true -> write_files pos files ef = Ok bs ->
   exists body, bs = 5 :: body /\
-    forall r, parse_files lim (body ++ r) = Ok ((map norm_file files, norm_emptyfiles files ef), r).
+    forall r, parse_files lim (body ++ r) = Ok ((norm_files files, norm_emptyfiles files ef), r).
 Proof.
-  unfold wf_files, write_files. intros Hwf Hw.
+  unfold wf_files, write_files, norm_files. intros Hwf Hw.
   apply andb_true_iff in Hwf as [Hlim Hnames].
+  remember (has_time e_ctime files) as cd eqn:Ecd. remember (has_time e_atime files) as ad eqn:Ead.
   bind_inv Hw n Hn. cbv zeta in Hw. fold (norm_emptyfiles files ef) in Hw. bind_inv Hw a Ha.
   set (pad := if 2 <? _ then _ else _) in Hw.
   assert (Hpad : pad = [] \/ exists d, 0 <= d < 128 /\ pad = 25 :: d :: repeatZ 0 (Z.to_nat d))
     by apply pad_cases.
   clearbody pad.
-  bind_inv Hw nm Hnm. bind_inv Hw tm Htm. bind_inv Hw at_ Hat. apply Ok_inj in Hw. subst bs.
+  bind_inv Hw nm Hnm. bind_inv Hw ct Hct. bind_inv Hw lat Hlat. bind_inv Hw tm Htm. bind_inv Hw at_ Hat.
+  apply Ok_inj in Hw. subst bs.
   cbn [app]. eexists. split; [reflexivity|]. intros r.
-  set (res := fun ef0 : list bool => ((map norm_file files, ef0), r)).
+  set (res := fun ef0 : list bool => ((map (norm_file cd ad) files, ef0), r)).
   (* END *)
-  assert (H1 : forall ef0 ne, PF lim 1 (map norm_file files) ef0 ne (0 :: r) (res ef0)) by (intros; apply PF_end).
+  assert (H1 : forall ef0 ne, PF lim 1 (map (norm_file cd ad) files) ef0 ne (0 :: r) (res ef0)) by (intros; apply PF_end).
   (* ATTRIBUTES *)
-  assert (H2 : forall ef0 ne, PF lim 2 (map st3 files) ef0 ne (at_ ++ 0 :: r) (res ef0)).
+  assert (H2 : forall ef0 ne, PF lim 2 (map (st3 cd ad) files) ef0 ne (at_ ++ 0 :: r) (res ef0)).
   { intros ef0 ne. unfold write_attributes in Hat. cbv zeta in Hat.
     bind_inv Hat sz Hsz. bind_inv Hat vals Hv. apply Ok_inj in Hat. subst at_.
     set (defined := map (fun f => opt_defined (e_attr f)) files) in *.
     replace (([21] ++ sz ++ wr_boolean defined true ++ [0] ++ vals) ++ 0 :: r)
       with (21 :: sz ++ (wr_boolean defined true ++ [0] ++ vals) ++ 0 :: r) by (norm_app; reflexivity).
-    destruct (rd_per_file_wr 4 e_attr set_attr st3 files vals [] Hv) as [_ Hlen]. fold defined in Hlen.
+    destruct (rd_per_file_wr 4 e_attr set_attr (st3 cd ad) files vals [] Hv) as [_ Hlen]. fold defined in Hlen.
     change (Z.of_nat 4) with 4 in Hlen.
     eapply PF_record; [lia|lia| |apply prop21; [lia|exact Hv]|apply H1].
     rewrite (vector_record_size 4 defined vals (zlen files) (zlen_map _ _) Hlen).
     rewrite <- count_true_all. unfold defined in *. rewrite zlen_map. exact Hsz. }
   (* LAST_WRITE_TIME *)
-  assert (H3 : forall ef0 ne, PF lim 3 (map st2 files) ef0 ne (tm ++ at_ ++ 0 :: r) (res ef0)).
-  { intros ef0 ne. unfold write_times in Htm. cbv zeta in Htm.
-    bind_inv Htm sz Hsz. bind_inv Htm vals Hv. apply Ok_inj in Htm. subst tm.
-    set (defined := map (fun f => opt_defined (e_mtime f)) files) in *.
-    replace (([20] ++ sz ++ wr_boolean defined true ++ [0] ++ vals) ++ at_ ++ 0 :: r)
-      with (20 :: sz ++ (wr_boolean defined true ++ [0] ++ vals) ++ at_ ++ 0 :: r) by (norm_app; reflexivity).
-    destruct (rd_per_file_wr 8 e_mtime (set_time 20) st2 files vals [] Hv) as [_ Hlen]. fold defined in Hlen.
-    change (Z.of_nat 8) with 8 in Hlen.
-    eapply PF_record; [lia|lia| |apply prop20; [lia|exact Hv]|apply H2].
-    rewrite (vector_record_size 8 defined vals (zlen files) (zlen_map _ _) Hlen).
-    exact Hsz. }
+  assert (H3 : (forall ef0 ne, PF lim 3 (map (st2a cd ad) files) ef0 ne (tm ++ at_ ++ 0 :: r) (res ef0)) /\ 3 <= zlen tm).
+  { split; [intros ef0 ne|].
+    - eapply (PF_time lim 2 20 e_mtime (st2a cd ad) files tm (at_ ++ 0 :: r) ef0 ne (res ef0) ltac:(lia) ltac:(lia) Htm).
+      apply H2.
+    - eapply (PF_time lim 2 20 e_mtime (st2a cd ad) files tm (at_ ++ 0 :: r) [] 0 (res []) ltac:(lia) ltac:(lia) Htm).
+      apply H2. }
+  destruct H3 as [H3 Ltm].
+  (* LAST_ACCESS_TIME, when some entry has one *)
+  assert (H3a : forall ef0 ne, PF lim (3 + length lat) (map (st2c cd) files) ef0 ne (lat ++ tm ++ at_ ++ 0 :: r) (res ef0)).
+  { intros ef0 ne. eapply (PF_time_opt lim 3 19 e_atime (st2c cd) (st2a cd ad)); [lia|lia|exact Hlat| |apply H3].
+    intros e. rewrite <- Ead. destruct ad; reflexivity. }
+  (* CREATION_TIME, when some entry has one *)
+  assert (H3c : forall ef0 ne, PF lim (3 + length lat + length ct) (map st2 files) ef0 ne
+                                  (ct ++ lat ++ tm ++ at_ ++ 0 :: r) (res ef0)).
+  { intros ef0 ne. eapply (PF_time_opt lim _ 18 e_ctime st2 (st2c cd)); [lia|lia|exact Hct| |apply H3a].
+    intros e. rewrite <- Ecd. destruct cd; reflexivity. }
+  set (K := (3 + length lat + length ct)%nat) in *.
   (* NAME *)
-  assert (H4 : forall ef0 ne, PF lim 4 (map st1 files) ef0 ne (nm ++ tm ++ at_ ++ 0 :: r) (res ef0)).
+  assert (H4 : forall ef0 ne, PF lim (S K) (map st1 files) ef0 ne (nm ++ ct ++ lat ++ tm ++ at_ ++ 0 :: r) (res ef0)).
   { intros ef0 ne. unfold write_names in Hnm. fold (names_of files) in Hnm.
     destruct (all_named files) eqn:Ean.
     - destruct (length (names_of files) =? 0)%nat eqn:E0.
@@ -1002,24 +1081,25 @@ Proof.
           cbn [all_named forallb] in Ean. apply andb_true_iff in Ean as [He _].
           destruct (e_name e) eqn:En; [|discriminate]. unfold names_of in E0. cbn [flat_map] in E0.
           rewrite En in E0. discriminate. }
-        destruct (none_named_names files Hnone) as [_ ->]. apply H3.
+        destruct (none_named_names files Hnone) as [_ ->]. apply H3c.
       + bind_inv Hnm body Hb. bind_inv Hnm sz Hsz. apply Ok_inj in Hnm. subst nm.
-        replace (([17] ++ sz ++ [0] ++ body) ++ tm ++ at_ ++ 0 :: r)
-          with (17 :: sz ++ (0 :: body) ++ tm ++ at_ ++ 0 :: r) by (norm_app; reflexivity).
-        eapply PF_record; [lia|lia| |apply prop17; [exact Ean|exact Hb]|apply H3].
+        replace (([17] ++ sz ++ [0] ++ body) ++ ct ++ lat ++ tm ++ at_ ++ 0 :: r)
+          with (17 :: sz ++ (0 :: body) ++ ct ++ lat ++ tm ++ at_ ++ 0 :: r) by (norm_app; reflexivity).
+        eapply PF_record; [lia|lia| |apply prop17; [exact Ean|exact Hb]|apply H3c].
         rewrite zlen_cons. replace (1 + zlen body) with (zlen body + 1) by lia. exact Hsz.
     - cbn [orb] in Hnames. destruct (none_named_names files Hnames) as [E0 E1].
       rewrite E0 in Hnm. cbn [length Nat.eqb] in Hnm. apply Ok_inj in Hnm. subst nm. cbn [app].
-      apply PF_weaken. rewrite E1. apply H3. }
+      apply PF_weaken. rewrite E1. apply H3c. }
   (* kDummy *)
-  assert (H5 : forall ef0 ne, PF lim 5 (map st1 files) ef0 ne (pad ++ nm ++ tm ++ at_ ++ 0 :: r) (res ef0)).
+  assert (H5 : forall ef0 ne, PF lim (S (S K)) (map st1 files) ef0 ne (pad ++ nm ++ ct ++ lat ++ tm ++ at_ ++ 0 :: r) (res ef0)).
   { intros ef0 ne. destruct Hpad as [-> | [d [Hd ->]]].
     - cbn [app]. apply PF_weaken. apply H4.
     - norm_app. apply PF_dummy; [exact Hd|apply H4]. }
   (* EMPTY_STREAM and EMPTY_FILE *)
   assert (H7 : exists ef0,
     (ef0 = norm_emptyfiles files ef \/ (ef0 = [] /\ any_true (norm_emptyfiles files ef) = false)) /\
-    PF lim 7 (repeat empty_file (length files)) [] 0 (a ++ pad ++ nm ++ tm ++ at_ ++ 0 :: r) (res ef0)).
+    PF lim (S (S (S (S K)))) (repeat empty_file (length files)) [] 0
+       (a ++ pad ++ nm ++ ct ++ lat ++ tm ++ at_ ++ 0 :: r) (res ef0)).
   { set (es := map e_emptystream files) in *.
     destruct (any_true es) eqn:Ees.
     - bind_inv Ha sz Hsz. bind_inv Ha b Hb. apply Ok_inj in Ha. subst a.
@@ -1027,9 +1107,9 @@ Proof.
       + bind_inv Hb sz2 Hsz2. apply Ok_inj in Hb. subst b.
         exists (norm_emptyfiles files ef). split; [left; reflexivity|].
         replace (([14] ++ sz ++ wr_bits es ++ [15] ++ sz2 ++ wr_bits (norm_emptyfiles files ef)) ++
-                 pad ++ nm ++ tm ++ at_ ++ 0 :: r)
+                 pad ++ nm ++ ct ++ lat ++ tm ++ at_ ++ 0 :: r)
           with (14 :: sz ++ wr_bits es ++
-                15 :: sz2 ++ wr_bits (norm_emptyfiles files ef) ++ pad ++ nm ++ tm ++ at_ ++ 0 :: r)
+                15 :: sz2 ++ wr_bits (norm_emptyfiles files ef) ++ pad ++ nm ++ ct ++ lat ++ tm ++ at_ ++ 0 :: r)
           by (norm_app; reflexivity).
         eapply PF_record; [lia|lia| |apply prop14|].
         { unfold es. rewrite wr_bits_length, zlen_map. exact Hsz. }
@@ -1038,8 +1118,8 @@ Proof.
         fold es. pose proof (count_true_bounds es).
         replace (Z.of_nat (Z.to_nat (count_true es))) with (count_true es) by lia. exact Hsz2.
       + apply Ok_inj in Hb. subst b. exists []. split; [right; auto|].
-        replace (([14] ++ sz ++ wr_bits es ++ []) ++ pad ++ nm ++ tm ++ at_ ++ 0 :: r)
-          with (14 :: sz ++ wr_bits es ++ pad ++ nm ++ tm ++ at_ ++ 0 :: r)
+        replace (([14] ++ sz ++ wr_bits es ++ []) ++ pad ++ nm ++ ct ++ lat ++ tm ++ at_ ++ 0 :: r)
+          with (14 :: sz ++ wr_bits es ++ pad ++ nm ++ ct ++ lat ++ tm ++ at_ ++ 0 :: r)
           by (rewrite app_nil_r; norm_app; reflexivity).
         apply PF_weaken. eapply PF_record; [lia|lia| |apply prop14|apply H5].
         unfold es. rewrite wr_bits_length, zlen_map. exact Hsz.
@@ -1055,24 +1135,18 @@ Proof.
       + do 2 apply PF_weaken. rewrite (no_empty_st1 files Ees). apply H5. }
   destruct H7 as [ef0 [Hef0 H7]].
   unfold parse_files. norm_app.
-  bstep (rd_number_wr _ _ (a ++ pad ++ nm ++ tm ++ at_ ++ 0 :: r) Hn).
+  bstep (rd_number_wr _ _ (a ++ pad ++ nm ++ ct ++ lat ++ tm ++ at_ ++ 0 :: r) Hn).
   destruct (lim <? zlen files) eqn:El; [lia|].
   unfold zlen at 1. rewrite Nat2Z.id. rewrite H7.
-  - unfold res. cbn [bind]. rewrite (norm_emptyfiles_idem files ef ef0 Hef0). reflexivity.
-  - (* fuel: the records written always occupy at least 6 bytes *)
-    assert (3 <= zlen tm).
-    { unfold write_times in Htm. cbv zeta in Htm. bind_inv Htm sz Hsz. bind_inv Htm vals Hv.
-      apply Ok_inj in Htm. subst tm. apply wr_number_length in Hsz. rewrite !zlen_app.
-      change (zlen [20]) with 1. change (zlen [0]) with 1.
-      pose proof (zlen_nonneg vals).
-      pose proof (zlen_nonneg (wr_boolean (map (fun f => opt_defined (e_mtime f)) files) true)). lia. }
+  - unfold res. cbn [bind]. rewrite (norm_emptyfiles_idem cd ad files ef ef0 Hef0). reflexivity.
+  - (* fuel: each record written occupies at least 3 bytes *)
     assert (3 <= zlen at_).
     { unfold write_attributes in Hat. cbv zeta in Hat. bind_inv Hat sz Hsz. bind_inv Hat vals Hv.
       apply Ok_inj in Hat. subst at_. apply wr_number_length in Hsz. rewrite !zlen_app.
       change (zlen [21]) with 1. change (zlen [0]) with 1.
       pose proof (zlen_nonneg vals).
       pose proof (zlen_nonneg (wr_boolean (map (fun f => opt_defined (e_attr f)) files) true)). lia. }
-    rewrite !app_length. cbn [length]. unfold zlen in *. lia.
+    unfold K. rewrite !app_length. cbn [length]. unfold zlen in *. lia.
 Qed.
 
 (* ================================================================== *)
@@ -1224,6 +1298,20 @@ Proof.
   apply Ok_inj in Hx. subst. reflexivity.
 Qed.
 
+Lemma write_times_wf p sel files bs : is_byte p = true -> write_times p sel files = Ok bs -> wf_bytes bs = true.
+Proof.
+  intros Hp Hw. unfold write_times in Hw. cbv zeta in Hw. bind_inv Hw sz Hsz. bind_inv Hw vals Hv.
+  apply Ok_inj in Hw. subst bs. cbn [app]. rewrite wf_bytes_cons. apply andb_true_iff. split; [exact Hp|].
+  wfb. eapply write_vector_vals_wf. exact Hv.
+Qed.
+
+Lemma write_times_opt_wf p sel files bs : is_byte p = true -> write_times_opt p sel files = Ok bs -> wf_bytes bs = true.
+Proof.
+  intros Hp Hw. unfold write_times_opt in Hw. destruct (has_time sel files).
+  - eapply write_times_wf; eassumption.
+  - apply Ok_inj in Hw. subst bs. reflexivity.
+Qed.
+
 Lemma write_files_wf pos files ef bs : write_files pos files ef = Ok bs -> wf_bytes bs = true.
 Proof.
   unfold write_files. intros Hw. bind_inv Hw n Hn. cbv zeta in Hw.
@@ -1232,7 +1320,8 @@ Proof.
   assert (Hpad : pad = [] \/ exists d, 0 <= d < 128 /\ pad = 25 :: d :: repeatZ 0 (Z.to_nat d))
     by apply pad_cases.
   clearbody pad.
-  bind_inv Hw nm Hnm. bind_inv Hw tm Htm. bind_inv Hw at_ Hat. apply Ok_inj in Hw. subst bs.
+  bind_inv Hw nm Hnm. bind_inv Hw ct Hct. bind_inv Hw lat Hlat. bind_inv Hw tm Htm. bind_inv Hw at_ Hat.
+  apply Ok_inj in Hw. subst bs.
   assert (wf_bytes a = true).
   { destruct (any_true (map e_emptystream files)); [|apply Ok_inj in Ha; subst a; reflexivity].
     bind_inv Ha sz Hsz. bind_inv Ha b Hb. apply Ok_inj in Ha. subst a. wfb.
@@ -1246,9 +1335,9 @@ Proof.
     bind_inv Hnm body Hb. bind_inv Hnm sz Hsz. apply Ok_inj in Hnm. subst nm. wfb.
     apply (wr_list_wf (fun _ => True) wr_utf16 (names_of files)) with (bs := body); [|exact Hb|apply Forall_True].
     intros x b _ Hx. eapply wr_utf16_wf. exact Hx. }
-  assert (wf_bytes tm = true).
-  { unfold write_times in Htm. cbv zeta in Htm. bind_inv Htm sz Hsz. bind_inv Htm vals Hv.
-    apply Ok_inj in Htm. subst tm. wfb. eapply write_vector_vals_wf. exact Hv. }
+  assert (wf_bytes ct = true) by (eapply (write_times_opt_wf 18); [reflexivity|exact Hct]).
+  assert (wf_bytes lat = true) by (eapply (write_times_opt_wf 19); [reflexivity|exact Hlat]).
+  assert (wf_bytes tm = true) by (eapply (write_times_wf 20); [reflexivity|exact Htm]).
   assert (wf_bytes at_ = true).
   { unfold write_attributes in Hat. cbv zeta in Hat. bind_inv Hat sz Hsz. bind_inv Hat vals Hv.
     apply Ok_inj in Hat. subst at_. wfb. eapply (write_vector_vals_wf 4 e_attr). exact Hv. }
@@ -1275,9 +1364,10 @@ Definition ex_coder2 := mkCoder [0] 1 1 None.                              (* CO
 (* two folders (a solid one with two sub-streams, and a single-stream one; the digest of the
    second sub-stream is undefined and its stale value 2 is lost), pack CRCs partially defined,
    four entries:
-   a file with mtime/attributes (and an atime, which is lost), an empty-stream entry
-   without an mtime key, a file with a non-BMP name and mtime/attributes present but
-   undefined, a file with a ctime (lost) and no attribute key *)
+   a file with mtime/attributes and an atime (kept: the LAST_ACCESS_TIME record is written because
+   one entry has a defined value), an empty-stream entry without an mtime key, a file with a
+   non-BMP name and mtime/attributes present but undefined, a file with a ctime (kept) and no
+   attribute key; the entries WITHOUT a ctime/atime key come back with the key present and None *)
 Definition ex_header : header :=
   mkHeader
     (Some (mkStreams
@@ -1298,6 +1388,12 @@ Example ex_header_roundtrip :
   exists bs, write_header false 32 ex_header = Ok bs /\ parse_header 1000 bs = Ok (norm false ex_header)
              /\ wf_bytes bs = true /\ norm false ex_header <> ex_header.
 Proof. eexists. split; [vm_compute; reflexivity|]. split; [vm_compute; reflexivity|]. split; [reflexivity|discriminate]. Qed.
+
+(* creation and access times survive: defined values are kept, absent keys become None *)
+Example ex_header_times_kept :
+  option_map (map (fun e => (e_ctime e, e_atime e))) (h_files (norm false ex_header)) =
+  Some [(Some None, Some (Some 5)); (Some None, Some None); (Some None, Some None); (Some (Some 1), Some None)].
+Proof. reflexivity. Qed.
 
 (* the same through the theorem (hypotheses met by a concrete non-trivial state) *)
 Example ex_header_roundtrip_thm bs :
@@ -1340,8 +1436,53 @@ Qed.
 (* ================================================================== *)
 (* Re-serialising what was parsed (relevant to "append preserves history", C08) *)
 (* ================================================================== *)
-Lemma norm_file_idem e : norm_file (norm_file e) = norm_file e.
-Proof. destruct e as [es nm ct at_ [[m|]|] [[a|]|]]; reflexivity. Qed.
+Lemma norm_file_idem cd ad e : norm_file cd ad (norm_file cd ad e) = norm_file cd ad e.
+Proof. destruct e as [es nm [[c|]|] [[t|]|] [[m|]|] [[a|]|]]; destruct cd, ad; reflexivity. Qed.
+(* whether a time record is written does not change by re-reading: norm_files is idempotent *)
+Lemma has_time_norm cd ad sel files :
+  (sel = e_ctime /\ cd = has_time e_ctime files) \/ (sel = e_atime /\ ad = has_time e_atime files) ->
+  has_time sel (map (norm_file cd ad) files) = has_time sel files.
+Proof.
+  intros H. unfold has_time. rewrite map_map.
+  assert (Hin : forall e, In e files -> opt_defined (sel e) = true -> has_time sel files = true).
+  { intros e Hi He. unfold has_time, any_true. apply existsb_exists. exists true. split; [|reflexivity].
+    apply in_map_iff. exists e. split; [exact He|exact Hi]. }
+  unfold has_time in Hin.
+  assert (Hext : forall e, In e files -> opt_defined (sel (norm_file cd ad e)) = opt_defined (sel e)).
+  { intros e Hi. specialize (Hin e Hi).
+    destruct H as [[-> ->] | [-> ->]]; cbn [norm_file e_ctime e_atime]; unfold tnorm, has_time.
+    - destruct (e_ctime e) as [[c|]|]; cbn [opt_defined flat_opt] in *;
+        [rewrite (Hin eq_refl); reflexivity| |]; destruct (any_true _); reflexivity.
+    - destruct (e_atime e) as [[c|]|]; cbn [opt_defined flat_opt] in *;
+        [rewrite (Hin eq_refl); reflexivity| |]; destruct (any_true _); reflexivity. }
+  f_equal. apply map_ext_in. exact Hext.
+Qed.
+(* what re-serialisation keeps of the creation / access times: every defined value, at its entry *)
+Lemma has_time_in sel files e : In e files -> opt_defined (sel e) = true -> has_time sel files = true.
+Proof.
+  intros Hi He. unfold has_time, any_true. apply existsb_exists. exists true. split; [|reflexivity].
+  apply in_map_iff. exists e. split; [exact He|exact Hi].
+Qed.
+Lemma tnorm_has_time sel files e : In e files -> flat_opt (tnorm (has_time sel files) (sel e)) = flat_opt (sel e).
+Proof.
+  intros Hi. pose proof (has_time_in sel files e Hi) as H. unfold tnorm.
+  destruct (sel e) as [[v|]|]; cbn [opt_defined flat_opt] in *;
+    [rewrite (H eq_refl); reflexivity| |]; destruct (has_time sel files); reflexivity.
+Qed.
+Theorem norm_files_times files :
+  map (fun e => (flat_opt (e_ctime e), flat_opt (e_atime e))) (norm_files files) =
+  map (fun e => (flat_opt (e_ctime e), flat_opt (e_atime e))) files.
+Proof.
+  unfold norm_files. rewrite map_map. apply map_ext_in. intros e Hi. cbn [norm_file e_ctime e_atime].
+  rewrite (tnorm_has_time e_ctime files e Hi), (tnorm_has_time e_atime files e Hi). reflexivity.
+Qed.
+Lemma norm_files_idem files : norm_files (norm_files files) = norm_files files.
+Proof.
+  unfold norm_files.
+  rewrite (has_time_norm _ _ e_ctime files) by (left; auto).
+  rewrite (has_time_norm _ _ e_atime files) by (right; auto).
+  rewrite map_map. apply map_ext. intros e. apply norm_file_idem.
+Qed.
 Lemma norm_folder_idem f : norm_folder (norm_folder f) = norm_folder f.
 Proof. reflexivity. Qed.
 Lemma mask_digests_idem dd : forall dg, mask_digests (mask_digests dg dd) dd = mask_digests dg dd.
